@@ -67,14 +67,26 @@ def nested(depth, rng=None, broken=None):
 
 
 UNI = ['\u00a0', '\u2028', '\u2029', '\u0085', '\u3000', '\x1c', '\x1d', '\x1e', '\x0b', '\x0c',
-       '\u00e9', '\u4e2d', '\U0001f600', '\u200b', '\ufeff', '\x00', '\x7f', '\ud800']
+       '\u00e9', '\u4e2d', '\U0001f600', '\u200b', '\ufeff', '\x00', '\x7f', '\ud800',
+       '\u017f', '\u212a', '\u0130', '\u0131', '\u043a', '\uff41', '\uff11', '\u0661', '\u00b2', '\u00df']
+# letters/digits that case-fold or digit-classify surprisingly (long s, Kelvin sign, dotted/dotless i,
+# Cyrillic ka, full-width a and 1, Arabic-Indic 1, superscript 2, sharp s)
+ODD_LETTERS = ['\u017f', '\u212a', '\u0130', '\u0131', '\u043a', '\uff41', '\u00e9', '\u00df', 'e', 'E', 'Z']
+ODD_DIGITS = ['\uff11', '\u0661', '\u00b2', '1', '0', '23']
+
+
+def alignment_like(rng):
+    """text shaped like an alignment but with unusual prefix letters / digits"""
+    s = '~' + rng.choice(ODD_LETTERS + ['', '']) + rng.choice(['.', '', '..'])
+    s += rng.choice(ODD_DIGITS) + rng.choice(['', ',2', ',', ',\uff11', '.3'])
+    return s
 
 
 def random_text(rng, maxlen=60):
     """random string biased to delimiters, quotes, comments and unicode blanks"""
     pool = ALPHA26 * 3 + UNI + list('abcxyz019') + [':ARG0', ':op1', '-of', '::', '# ', '"a"', '~e.1']
     n = rng.randrange(0, maxlen)
-    return ''.join(rng.choice(pool) for _ in range(n))
+    return ''.join(alignment_like(rng) if rng.random() < 0.04 else rng.choice(pool) for _ in range(n))
 
 
 def corrupt_text(rng, s):
